@@ -6,7 +6,7 @@ use crate::corpus::{self, Entry};
 use crate::forkrun::{fork_collect, ChildEnd};
 use crate::prng::{fnv64, sub_seed, Rng};
 use crate::report::{self, Paths, Report, Violation};
-use crate::shim::{Shim, F_EINTR, F_ERRNO, F_SHORT};
+use crate::shim::{Shim, F_EINTR, F_EOF, F_ERRNO, F_SHORT};
 use crate::Args;
 use serde_json::{json, Value};
 use std::collections::{BTreeMap, BTreeSet};
@@ -480,7 +480,7 @@ fn run_item(r: &Runner, entries: &[Entry], item: &(usize, usize), thorough: bool
     subcases(p, &sentence.bytes, &base, thorough, seed, &mut |c| {
         k += 1;
         // progress marker: lets the parent name the sub-case if this child dies
-        let _ = std::fs::write(progress, k.to_string());
+        let _ = std::fs::write(progress, c.to_json().to_string());
         if let Some(o) = r.run(&c, false) {
             record(r, &mut st, &c, &o, &mut viol, idx);
         }
@@ -503,13 +503,15 @@ fn run_item(r: &Runner, entries: &[Entry], item: &(usize, usize), thorough: bool
                 plans.push((F_EINTR, 0, "io-eintr"));
                 plans.push((F_SHORT, 1, "io-short"));
                 plans.push((F_SHORT, 3, "io-short"));
+                // the file is truncated by another process after it was stat'ed
+                plans.push((F_EOF, 0, "io-eof"));
                 for (kind, arg, cls) in plans {
                     let mut c = c0.clone();
                     c.io_faults.push(IoFault { event: e.seq as u64, kind, arg });
                     c.damage = format!("parse_file: I/O event {} (op {}) fault kind {} arg {}", e.seq, e.op, kind, arg);
-                    c.fclass = if cls == "io-errno" { "io-errno" } else if cls == "io-eintr" { "io-eintr" } else { "io-short" };
+                    c.fclass = if cls == "io-errno" { "io-errno" } else if cls == "io-eintr" { "io-eintr" } else if cls == "io-eof" { "io-eof" } else { "io-short" };
                     k += 1;
-                    let _ = std::fs::write(progress, k.to_string());
+                    let _ = std::fs::write(progress, c.to_json().to_string());
                     if let Some(o) = r.run(&c, false) {
                         let (_, eintr, short, errno) = r.io_stat();
                         if eintr > 0 {
@@ -521,8 +523,11 @@ fn run_item(r: &Runner, entries: &[Entry], item: &(usize, usize), thorough: bool
                         if errno > 0 {
                             bump(&mut st.io_faults_fired, "errno");
                         }
+                        if r.shim.map(|s| s.stat().eof).unwrap_or(0) > 0 {
+                            bump(&mut st.io_faults_fired, "eof");
+                        }
                         // a benign fault must not change the outcome
-                        if kind != F_ERRNO && o.out.tag() != base.out.tag() && !matches!(o.out, Out::Panic(_) | Out::Budget) {
+                        if kind != F_ERRNO && kind != F_EOF && o.out.tag() != base.out.tag() && !matches!(o.out, Out::Panic(_) | Out::Budget) {
                             let key = format!("benign-io-fault-changed-outcome|{}", c.parser);
                             if !viol.iter().any(|v| v["key"].as_str() == Some(&key)) {
                                 viol.push(Violation { property: "C15".into(), class: "benign-io-fault-changed-outcome".into(), key, what: format!("a benign I/O fault on parse_file changed the outcome from {} to {} [{}]", base.out.tag(), o.out.tag(), c.damage), case: c.to_json(), index: idx }.to_json());
@@ -584,13 +589,14 @@ fn work(args: &Args, entries: &[Entry], w: usize, nw: usize) -> Value {
             },
             Err(end) => {
                 // the child died or hung: name the sub-case it was running
-                let k: u64 = std::fs::read_to_string(&progress).ok().and_then(|s| s.trim().parse().ok()).unwrap_or(0);
+                let marked: Option<Case> = std::fs::read_to_string(&progress).ok().and_then(|s| serde_json::from_str::<Value>(&s).ok()).and_then(|v| Case::from_json(&v));
+                let k: u64 = 0;
                 let p = &*r.registry[item.0];
                 let entry = entries.iter().find(|e| e.id == p.id()).unwrap();
                 let sentence = &entry.sentences[item.1];
                 let base_case = Case { parser: p.id().into(), layout: p.layout().into(), input: sentence.bytes.clone(), faults: vec![], ignore_expected: false, via_file: false, io_faults: vec![],
         seq_prefix: vec![], damage: "none".into(), fclass: "baseline" };
-                let mut culprit = base_case.clone();
+                let mut culprit = marked.unwrap_or_else(|| base_case.clone());
                 if k > 0 {
                     // re-enumerate up to k in a child that only counts (it never parses)
                     if let Some(base) = isolated(&r, &base_case) {
